@@ -10,8 +10,9 @@
 
   Ghost state (not in the Python): `escaped` = addresses of arrays the caller holds (returned by
   an accessor, or created by the caller and passed in); `imported` = addresses that the caller
-  holds AND that were stored by reference on the caller's explicit request
-  (`set_current/update_current(copy=False)`, `update_from_dict`).
+  holds AND that were stored by reference into `_current` on the caller's explicit request
+  (`set_current/update_current(copy=False)`, the "_current" section of `update_from_dict`);
+  `importedH` = the same for `_history` (only the "_history" section of `update_from_dict`).
 
   Python methods mirrored (file as of the `fix:` commits fd508f0 / fb52885: `to_dict` copies,
   `compute_results` returns copies of the cache):
@@ -77,7 +78,8 @@ structure State where
   cache : Option (List (Key × Val))
   heap : Heap
   escaped : List Addr
-  imported : List Addr
+  imported : List Addr      -- ghost: caller-held arrays stored by reference into `_current` at the caller's request
+  importedH : List Addr     -- ghost: caller-held arrays stored by reference into `_history` (`update_from_dict` only)
 
 def State.next (s : State) : Addr := s.heap.length
 
@@ -88,7 +90,8 @@ def init : State :=
     cache := none
     heap := []
     escaped := []
-    imported := [] }
+    imported := []
+    importedH := [] }
 
 def Val.addrs : Val → List Addr
   | .ref a => [a]
@@ -198,7 +201,7 @@ inductive Res where
   | dict (d : List (Key × Val))
   | export (cur : List (Key × Val)) (hist : List (Key × List Val))
   | err (e : Err)
-  deriving Repr
+  deriving DecidableEq, Repr
 
 def Res.addrs : Res → List Addr
   | .unit => []
@@ -353,7 +356,8 @@ def step (s : State) : Op → State × Res
     ({ s with heap := rh.1, escaped := rh.2.1,
               current := updateAll s.current rc.2.2,
               history := updateAll s.history rh.2.2,
-              imported := dictAddrs rc.2.2 ++ histAddrs rh.2.2 ++ s.imported,
+              imported := dictAddrs rc.2.2 ++ s.imported,
+              importedH := histAddrs rh.2.2 ++ s.importedH,
               cache := none }, .unit)
   | .scribble a p =>
     if s.escaped.contains a then ({ s with heap := s.heap.set a (some p) }, .unit) else (s, .err .illegal)
